@@ -14,7 +14,7 @@ from ..worlds import rails_run as RR
 from .base import Outcome
 from .c01 import RailsProp, cfgclass
 
-EXC_TYPES = ["RuntimeError", "KeyError", "TimeoutError", "ValueError"]
+EXC_TYPES = ["RuntimeError", "KeyError", "TimeoutError", "ValueError", "UnprintableError"]  # UnprintableError: an exception whose own str()/repr() raises
 V1_MODES = [("rails_only", 3), ("dialog", 5), ("single_call", 2), ("passthrough", 1)]
 
 
